@@ -303,14 +303,11 @@ def run(chk):
     except NotConst as e:
         raise AnalysisError(f"C01.rej.singleton: {e}")
     # TE with CL
-    rej("C01.rej.tecl", pheaders, [("$H.get(hdrs.TRANSFER_ENCODING) is None", False, "Transfer-Encoding present"), ("hdrs.CONTENT_LENGTH in $H", True, "Content-Length present")], ALL,
+    TE_PRESENT = [("$H.get(hdrs.TRANSFER_ENCODING) is None", False), ("hdrs.TRANSFER_ENCODING in $H", True)]
+    CL_PRESENT = [("hdrs.CONTENT_LENGTH in $H", True), ("$H.get(hdrs.CONTENT_LENGTH) is None", False)]
+    rej("C01.rej.tecl", P, [(TE_PRESENT, True, "Transfer-Encoding present"), (CL_PRESENT, True, "Content-Length present")], ALL,
         "Transfer-Encoding together with Content-Length", forbidden=[("self._lax", True, "lax"), ("self._lax", False, "lax")])
     # the TE+CL test must not depend on the *value* of either header
-    for n2, _c in K.raises_in(pheaders.node):
-        for c in PC.pc(n2):
-            for lit in c:
-                if "chunked" in lit.text or "_is_chunked_te" in lit.text:
-                    chk.violation("C01.rej.tecl", n2, K.short(n2), str(lit), "TE+CL rejection depends on the transfer coding value")
     # TE+CL must also be reached on every path of parse_headers that saw a TE header: checked via PC above (no extra literal allowed)
     # request TE
     rej("C01.rej.te2", te, [("$C > 1", True, "chunked applied twice")], ALL, "chunked applied more than once")
